@@ -164,6 +164,18 @@ CHECKS = {
         "driven the way real callers do (size consulted before write).",
         "5/C04",
     ),
+    "C14": (
+        "exploration",
+        "model-based differential testing: generated route tables (all registration orders for small tables) x enumerated "
+        "request paths/methods/hosts resolved by the real UrlDispatcher and by an independent linear implementation of "
+        "the documented lookup rule; url_for/resolve round trip; normalising redirects driven through a real server",
+        "For every table and every request the chosen handler, match_info, 404/405 and allowed-method set must equal those "
+        "of the documented rule computed from the original template text; url_for output must resolve back; redirect "
+        "targets of normalize_path_middleware must stay on-site under a strict and a browser-like reading.",
+        "Trusts the reference rule in the check (domain precedence is set-valued); templates are decoded text; static and "
+        "sub-application prefixes that need quoting are not generated.",
+        "5/C14",
+    ),
 }
 
 REASON_PENDING = "check not built yet in this round (design in DESIGN.md section 5); not claimed until it runs quietly on the unchanged tree"
